@@ -81,7 +81,7 @@ func (t *Transformer) transformElements(elements []WirePattern, pkg *types.Packa
 			if err != nil {
 				return nil, err
 			}
-			implKey := we.Implementation.String()
+			implKey := resolvedTypeKey(we.Implementation)
 			if first, ok := bindsByImpl[implKey]; ok {
 				first.Provider = &KessokuBind{
 					Interface: transformed.Interface,
@@ -134,7 +134,7 @@ func (t *Transformer) collectBoundTypes(elements []WirePattern) map[string]bool 
 			if ptr, ok := implType.(*types.Pointer); ok {
 				implType = ptr.Elem()
 			}
-			boundTypes[implType.String()] = true
+			boundTypes[resolvedTypeKey(implType)] = true
 		case *WireNewSet:
 			// Recursively collect from nested sets
 			maps.Copy(boundTypes, t.collectBoundTypes(we.Elements))
@@ -161,5 +161,22 @@ func (t *Transformer) isProviderBound(wf *WireProviderFunc, boundTypes map[strin
 
 	// Check if the first return type is in the bound types
 	returnType := results.At(0).Type()
-	return boundTypes[returnType.String()]
+	return boundTypes[resolvedTypeKey(returnType)]
+}
+
+// resolvedTypeKey identifies a type in the per-list lookup tables. Aliases are resolved at every
+// pointer level, so that new(*Eng) with 'type Eng = English' and a provider returning *English
+// meet under the same key.
+func resolvedTypeKey(t types.Type) string {
+	stars := ""
+	t = types.Unalias(t)
+	for {
+		ptr, ok := t.(*types.Pointer)
+		if !ok {
+			break
+		}
+		stars += "*"
+		t = types.Unalias(ptr.Elem())
+	}
+	return stars + t.String()
 }
